@@ -48,9 +48,7 @@ def run(ctx):
     traces = ctx.exec_scenarios(binary, scen, "c10", shards=15, timeout=3000)
     if len(traces) != len(scen) and not any(t.get("crashed") for t in traces):
         raise Inconclusive("%d scenarios, %d traces" % (len(scen), len(traces)))
-    dead = [(t["id"], [e for e in t["events"] if e.get("event") == "DriverDead"]) for t in traces if any(e.get("event") == "DriverDead" for e in t["events"])]
-    if dead:
-        raise Inconclusive("driver could not complete scenarios %s" % dead[:3])
+    traces = ctx.drop_dead(traces)
     kinds = {}
     for t in traces:
         kinds[t["scenario"]["kind"]] = kinds.get(t["scenario"]["kind"], 0) + 1
